@@ -280,8 +280,11 @@ fn hot_reloading_thread(
             match events.try_recv() {
                 Ok(msg) => cache.handle_events(msg),
                 Err(crossbeam_channel::TryRecvError::Empty) => (),
-                // We won't receive events anymore, we can stop now
-                Err(crossbeam_channel::TryRecvError::Disconnected) => break,
+                // We won't receive events anymore, but threads calling
+                // `hot_reload` still wait for our answers: stop watching
+                // this channel and keep serving the cache until it is
+                // dropped.
+                Err(crossbeam_channel::TryRecvError::Disconnected) => select.remove(1),
             }
         }
     }
